@@ -293,7 +293,10 @@ fn run_one(cfg: &Cfg, prelude: &[u8], script: &[u8], trace: bool) -> (Vec<(Strin
 
 fn grid(tier: Tier) -> Vec<Cfg> {
     let mut v = vec![];
-    for max in [Some(0u32), Some(1), Some(2), Some(3), None] {
+    for max in [Some(0u32), Some(1), Some(2), Some(3), Some(4), None] {
+        if tier == Tier::Quick && max == Some(4) {
+            continue;
+        }
         for pol in [Pol::None, Pol::Zero, Pol::Fixed, Pol::Exponential, Pol::Jittered, Pol::Custom, Pol::SubMs, Pol::Fractional] {
             for retry_on_reconnect in [true, false] {
                 for predicate in [false, true] {
